@@ -79,7 +79,7 @@ where
     match (a, b) {
         (Ok(a), Ok(b)) => out.push(json!({"ev":"e2e","name":name,"threads":threads,"ok":true,"pub_serial":a.0,"pub_mt":b.0,"shares_serial":a.1,"shares_mt":b.1,
                                             "vshares_serial":a.2,"vshares_mt":b.2,"outs_serial":a.3,"outs_mt":b.3,"result_serial":a.4,"result_mt":b.4})),
-        (a, b) => out.push(json!({"ev":"e2e","name":name,"threads":threads,"ok":false,"err_serial":a.err(),"err_mt":b.err(),"pub_serial":[],"pub_mt":[],"shares_serial":[],"shares_mt":[],
+        (a, b) => out.push(json!({"ev":"e2e","name":name,"threads":threads,"ok":false,"err_serial":a.err().unwrap_or_default(),"err_mt":b.err().unwrap_or_default(),"pub_serial":[],"pub_mt":[],"shares_serial":[],"shares_mt":[],
                              "vshares_serial":[],"vshares_mt":[],"outs_serial":[],"outs_mt":[],"result_serial":"","result_mt":""})),
     }
 }
